@@ -1,4 +1,4 @@
-import KyupyVerif.Model.CircObj
+import KyupyVerif.Model.CircObjSub
 /-! Driver extension for C09: replays an edit history on the object-level circuit model.
 
 `circobj <op> <op> ...`   (one token per operation, operands are CURRENT indices, names percent-encoded, `%` = empty)
@@ -8,6 +8,18 @@ import KyupyVerif.Model.CircObj
 * `io:<ni>`                    `c.io_nodes.append(c.nodes[ni])`
 * `gf:<name>`                  `c.get_or_add_fork(name)`
 * `elim` `copy` `pickle`       `c.eliminate_1to1_forks()`, `c = c.copy()`, `c = pickle.loads(pickle.dumps(c))`
+* `sub:<ni>:<spec>`            `c.substitute(c.nodes[ni], impl)`; `<spec>` = pickle state of the implementation circuit
+                               `name,kind|...;d.dp.r.rp|...;i,i,...` (nodes; lines by node index and pin; io_nodes by index)
+* `rd:<ni>`                    `c.remove_dangling_nodes(c.nodes[ni])`
+* `res:<kind>=<spec>/...`      `c.resolve_tlib_cells(tlib)` with `tlib.cells = {kind: (impl,)}`
+* `rtl:<LIB>:<kind>=<spec>/...` the same; the real side uses the built-in library object `kyupy.techlib.<LIB>`
+* `st:<spec>`                  `c = Circuit.__setstate__(spec)` (start from a given circuit)
+For these four the record starts with `1` or `0<reason>` (`n` node index out of range, `k` kinds, `s` self loop, `g` a pin
+assignment overwrites a line, `f` fork outputs of the result have a gap, `p` a substitution of `resolve` is not a
+well-formed use; `1` = also the structural condition `substStatic` (`resolveStatic`) holds, `1d` = `substPre` holds but
+`substStatic` does not (`1r` for `resolve`); `0X` = `substStatic` holds and a pin guard fails, `0Y` = `substStatic` holds and
+the result has a fork gap — both excluded by theorems `substStatic_pre0`, `substStatic_pre`); the operation is applied also when the precondition is false; `<pre>;raise` = the model says the real
+code raises (state unchanged).
 
 Answer: one record per operation, separated by ` # `:
 `<pre>;<nodes>;<lines>;<io>;<cells>;<forks>;<stats>;<invOK>` where `pre` is the well-formed-use precondition of the
@@ -69,17 +81,73 @@ def parseOp (s : String) : Option Op :=
   | ["pickle"] => some .pickle
   | _ => none
 
+def splitNE (s : String) (sep : String) : List String := (s.splitOn sep).filter (· ≠ "")
+
+/-- `name,kind|...;d.dp.r.rp|...;i,i` -/
+def parseSpec (s : String) : Option State :=
+  match s.splitOn ";" with
+  | [ns, ls, io] =>
+    let nodes := (splitNE ns "|").map fun e => match e.splitOn "," with
+      | [a, b] => (unpct a, unpct b)
+      | _ => ("", "")
+    let lines := (splitNE ls "|").map fun e => match e.splitOn "." with
+      | [a, b, c, d] => (a.toNat!, b.toNat!, c.toNat!, d.toNat!)
+      | _ => (0, 0, 0, 0)
+    some { nodes := nodes, lines := lines, io := (splitNE io ",").map (·.toNat!) }
+  | _ => none
+
+def parseLib (s : String) : Option Lib :=
+  (splitNE s "/").mapM fun e => match e.splitOn "=" with
+    | [k, sp] => (parseSpec sp).map fun st => (unpct k, setState st)
+    | _ => none
+
+inductive Tok
+  | op (o : Op2)
+  | load (s : State)
+
+def parseTok (s : String) : Option Tok :=
+  match s.splitOn ":" with
+  | ["sub", ni, sp] => (parseSpec sp).map fun st => .op (.substitute ni.toNat! (setState st))
+  | ["rd", ni] => some (.op (.removeDangling ni.toNat!))
+  | ["res", lib] => (parseLib lib).map fun l => .op (.resolve l)
+  | ["res"] => some (.op (.resolve []))
+  | ["rtl", _, lib] => (parseLib lib).map fun l => .op (.resolve l)
+  | ["st", sp] => (parseSpec sp).map .load
+  | _ => (parseOp s).map fun o => .op (.base o)
+
+def substReason (c : Circ) (i : Nat) (m : Circ) : String :=
+  if !(c.nodes.contains i) then "0n" else if !(substKinds c i m) then "0k" else if !(noSelfLoop c i) then "0s"
+  else
+    let st := substStatic c i m
+    if !(substGuards c i m) then (if st then "0X" else "0g")
+    else if !(substPre c i m) then (if st then "0Y" else "0f")
+    else if st then "1" else "1d"
+
+def preStr (c : Circ) : Op2 → String
+  | .base op => if pre c op then "1" else "0"
+  | .substitute ni m => match c.nodes[ni]? with
+    | some i => substReason c i m
+    | none => "0n"
+  | .removeDangling ni => if ni < c.nodes.length then "1" else "0n"
+  | .resolve lib => if resolvePre lib c then (if resolveStatic lib c then "1" else "1r") else (if resolveStatic lib c then "0Y" else "0p")
+
 def replay (ops : List String) : List String :=
   let rec go (c : Circ) : List String → List String
     | [] => []
     | t :: rest =>
-      match parseOp t with
+      match parseTok t with
       | none => ["bad-op"]
-      | some op =>
+      | some (.load s) => let c' := setState s; s!"1;{dump c'}" :: go c' rest
+      | some (.op (.base op)) =>
         if pre c op then
           let c' := step c op
           s!"1;{dump c'}" :: go c' rest
         else s!"0;{dump c}" :: go c rest
+      | some (.op op) =>
+        let p := preStr c op
+        match step2 c op with
+        | some c' => s!"{p};{dump c'}" :: go c' rest
+        | none => s!"{p};raise" :: go c rest
   go empty ops
 
 def handle (cmd : String) (args : List String) : Option String :=
